@@ -232,6 +232,7 @@ class Interp:
 
     def symbolic_loop(self, s, env, it, spec, ordinal):
         eng = self.eng
+        eng.run.cache["symbolic_loops"] = True
         fn = self.fn_stack[-1]
         if isinstance(it, SRange):
             lo, hi = _z(it.lo), _z(it.hi)
@@ -650,6 +651,7 @@ class Interp:
         if isinstance(o, TS):
             return BoundMethod(o, name)
         if isinstance(o, Opaque) and o.what == "source" and name in ("name", "link"): return Label(True, "source " + name)
+        if isinstance(o, Opaque) and o.what == "Sources": return Opaque("source", name)
         if isinstance(o, Opaque) and o.what == "timedelta" and name == "seconds":
             return PyNum((o.payload * 60) % 86400)     # timedelta.seconds: seconds part only (days dropped), ticks are minutes
         if isinstance(o, (Arr, PintAccessor, SDict, SList, list, str, Label, Unit, Opaque, tuple, ILoc)):
@@ -680,6 +682,7 @@ class Interp:
     def expl_getattr(self, o: Expl, name):
         if name == "__class__": return ClassRef(KIND_CLASS[o.kind])
         if name == "value":
+            self.note_read(o)
             return o if o.kind == "empty" else o.value
         if name == "label": return o.label
         if name == "left_parent": return o.left if o.left is not None else NONE
@@ -1098,6 +1101,7 @@ class Interp:
         if isinstance(recv, Uninit) and name == "__init__":
             recv.obj = self.construct(recv.cname, args, kwargs); return NONE
         if isinstance(recv, Opaque) and name == "name": return Label(True)
+        if isinstance(recv, Opaque) and recv.what == "re.Match" and name == "groups": return list(recv.payload.groups())
         if isinstance(recv, Builtin):
             return self.call_builtin(f"{recv.name}.{name}", args, kwargs)
         if self.world is not None:
@@ -1236,6 +1240,12 @@ class Interp:
             if isinstance(x, (bool, PyNum, str)): return x
             if isinstance(x, Expl): return self.call_method(x, "__copy__", [], {})
             raise Unsupported(f"copy({type(x).__name__})")
+        if name == "re.search":
+            # literal pattern on a concrete string: evaluated concretely (finite, complete enumeration of the allowed values)
+            if not (isinstance(args[0], str) and isinstance(args[1], str)): raise Unsupported("re.search on symbolic text")
+            import re as _re
+            m = _re.search(args[0], args[1])
+            return Opaque("re.Match", m) if m else NONE
         if name in ("math.floor", "math.ceil"):
             x = args[0]
             if not isinstance(x, PyNum): raise Unsupported(f"{name} of {type(x).__name__}")
